@@ -329,6 +329,59 @@ func exec(t *testing.T, pa any) (out core.Outcome) {
 			packOverlapsCas = true
 		}
 	}
+	// The recorded PackRefs defect has one precise shape on the disk: the packing task reads the loose file, ANOTHER
+	// task writes the loose file, and then the packing task removes it (the value it carried into packed-refs is the
+	// one from before that write). A non-linearizable history in which a PackRefs merely overlaps a check-and-set
+	// without that window is something else and must not hide behind the recorded finding.
+	// A second recorded shape of the same PackRefs defect: a writer has OPENED the loose file (not yet locked it), the
+	// packing task unlinks it, and the writer then locks, checks and rewrites the unlinked inode: its update
+	// "succeeds" into a file nobody can see.
+	lostWriteWindow, writeToUnlinked := false, false
+	{
+		loose := "/g/" + string(refName)
+		lastRead := map[string]int{} // task -> index of its first read of the loose file since it last opened it
+		lastOpen := map[string]int{} // task -> index of its latest open/create of the loose file
+		lastRemove := -1
+		removeBy := ""
+		type wr struct {
+			task string
+			at   int
+		}
+		var writes []wr
+		for i, line := range drv.Trace {
+			f := strings.Fields(line)
+			if len(f) != 4 || f[3] != loose {
+				continue
+			}
+			switch f[2] {
+			case "open", "create":
+				lastOpen[f[1]] = i
+				delete(lastRead, f[1])
+			}
+			switch f[2] {
+			case "read":
+				// the FIRST read after the task's latest open is the one that fetched the value (a second read
+				// only sees the end of the file)
+				if _, seen := lastRead[f[1]]; !seen {
+					lastRead[f[1]] = i
+				}
+			case "write", "truncate":
+				writes = append(writes, wr{f[1], i})
+				if o, ok := lastOpen[f[1]]; ok && lastRemove > o && removeBy != f[1] {
+					writeToUnlinked = true
+				}
+			case "remove":
+				lastRemove, removeBy = i, f[1]
+				if r, ok := lastRead[f[1]]; ok {
+					for _, w := range writes {
+						if w.task != f[1] && w.at > r && w.at < i {
+							lostWriteWindow = true
+						}
+					}
+				}
+			}
+		}
+	}
 	m := model
 	init := v0.String()
 	m.Init = func() []interface{} { return []interface{}{init} }
@@ -375,6 +428,13 @@ func exec(t *testing.T, pa any) (out core.Outcome) {
 			when = "pack-quiescent"
 			if packOverlapsCas {
 				when = "pack-overlaps-cas"
+				switch {
+				case lostWriteWindow:
+				case writeToUnlinked:
+					when = "pack-overlaps-cas:write-to-unlinked-file"
+				default:
+					when = "pack-overlaps-cas:no-recorded-window"
+				}
 			}
 		}
 		out.Fail("C16|non-linearizable-cas|"+when, "the %d check-and-set operations alone are not linearizable against a CAS register (init %s): an update succeeded against a value that was not current, or a successful update was lost", len(kept), short(init))
